@@ -764,8 +764,9 @@ fn run_check(cfg: &Config) -> i32 {
     // Re-execute the minimised plan of every recorded finding against the current tree, so the
     // KNOWN-FINDING lines do not depend on what the seeded sweep happened to reach.
     let known = report::Known::load(&cfg.verif_dir);
+    let plan_only = cat_c09::plan_only();
     for k in known.for_property(cfg.property) {
-        let Some(decl) = find_decl(&decls, &k.decl) else { continue };
+        let Some(decl) = find_decl(&decls, &k.decl).or_else(|| find_decl(&plan_only, &k.decl)) else { continue };
         let bytes = unhex(k.plan["bytes_hex"].as_str().unwrap_or(""));
         stats.inc("known_finding_plans_executed");
         match call(decl, &bytes).verdict {
@@ -866,7 +867,8 @@ fn run_check(cfg: &Config) -> i32 {
 fn run_replay(cfg: &Config, path: &str) -> i32 {
     let text = std::fs::read_to_string(path).unwrap_or_else(|e| report::harness_error(&format!("cannot read {path}: {e}")));
     let v: Value = serde_json::from_str(&text).unwrap_or_else(|e| report::harness_error(&format!("bad replay file: {e}")));
-    let decls = cat_c09::all();
+    let mut decls = cat_c09::all();
+    decls.extend(cat_c09::plan_only());
     let name = v["plan"]["decl"].as_str().unwrap_or("");
     let Some(decl) = find_decl(&decls, name) else {
         report::harness_error(&format!("replay names unknown declaration {name:?}"))
